@@ -549,3 +549,233 @@ Proof.
   - (* the DW_AT_sibling jump lands behind the subtree *)
     exists (S f). rewrite sibling_loop_S, Hcurrent, J. cbn [bind]. rewrite Direct, Hr. reflexivity.
 Qed.
+
+(* ------------------------------------------------------------------ *)
+(** * Every input: steps consume input, the fuel of the model suffices, more fuel changes nothing *)
+
+Lemma read_attributes_length dbg e : forall specs bs vs r,
+  read_attributes dbg e specs bs = Ok (vs, r) -> (length r <= length bs)%nat.
+Proof.
+  induction specs as [|s specs IH]; intros bs vs r; cbn [read_attributes].
+  - intros H. inversion H; subst. lia.
+  - destruct (parse_attribute dbg e s bs) as [[v r1]| | |] eqn:E1; cbn [bind]; try discriminate.
+    destruct (read_attributes dbg e specs r1) as [[vs' r2]| | |] eqn:E2; cbn [bind]; try discriminate.
+    intros H. inversion H; subst. apply parse_attribute_length in E1. apply IH in E2. lia.
+Qed.
+
+Lemma read_entry_shrinks dbg e tbl r ok d r' :
+  read_entry dbg e tbl r = Ok (ok, d, r') ->
+  (length (r_in r') < length (r_in r))%nat /\ r_end r' = r_end r.
+Proof.
+  unfold read_entry. destruct (next_offset dbg r) as [off| | |]; cbn [bind]; try discriminate.
+  unfold read_abbreviation.
+  destruct (read_uleb128 dbg (r_in r)) as [[code rest]| | |] eqn:E1; cbn [bind]; try discriminate.
+  apply read_uleb128_skip, skip_leb_shrinks in E1.
+  destruct (code =? 0).
+  - destruct (chk_s 64 dbg (r_depth r - 1)) as [d'| | |]; cbn [bind]; try discriminate.
+    intros H. inversion H; subst. cbn [r_in r_end]. split; [exact E1|reflexivity].
+  - destruct (tbl_get tbl code) as [a|]; cbn [bind]; [|discriminate].
+    destruct (if ab_children a then chk_s 64 dbg (r_depth r + 1) else Ok (r_depth r)) as [d'| | |]; cbn [bind];
+      try discriminate.
+    unfold read_attrs. cbn [r_in r_end r_depth].
+    destruct (read_attributes dbg e (ab_specs a) rest) as [[vs rest']| | |] eqn:E2; cbn [bind]; try discriminate.
+    intros H. inversion H; subst. cbn [r_in r_end]. apply read_attributes_length in E2. split; [lia|reflexivity].
+Qed.
+
+Lemma sibling_jump_shrinks dbg r cur r' :
+  sibling_jump dbg r cur = Ok r' -> (length (r_in r') <= length (r_in r))%nat /\ r_end r' = r_end r.
+Proof.
+  unfold sibling_jump. destruct (d_children cur); [|intros H; inversion H; subst; split; [lia|reflexivity]].
+  destruct (die_sibling cur) as [o|]; [|intros H; inversion H; subst; split; [lia|reflexivity]].
+  unfold seek_forward. destruct (next_offset dbg r) as [no| | |]; cbn [bind]; try discriminate.
+  destruct (o <? no); cbn [bind]; [intros H; inversion H; subst; split; [lia|reflexivity]|].
+  destruct (skip_n (o - no) (r_in r)) as [rest|x| |] eqn:E; cbn [bind]; try discriminate.
+  - intros H. inversion H; subst. cbn [r_in r_end]. apply skip_n_spec in E. destruct E as (hd & E & _).
+    rewrite E, app_length. split; [lia|reflexivity].
+  - intros H. inversion H; subst. split; [lia|reflexivity].
+Qed.
+
+Lemma next_entry_shrinks dbg e tbl c c' :
+  next_entry dbg e tbl c = Ok (SOk true c') -> (length (r_in (c_raw c')) < length (r_in (c_raw c)))%nat.
+Proof.
+  unfold next_entry. destruct (raw_is_empty (c_raw c)); [discriminate|].
+  destruct (read_entry dbg e tbl (c_raw c)) as [[[ok d] r']| | |] eqn:E; try discriminate.
+  - intros H. inversion H; subst. cbn [c_raw]. apply read_entry_shrinks in E. tauto.
+  - destruct (next_offset dbg (c_raw c)); cbn [bind]; discriminate.
+Qed.
+
+Lemma chk_sub_not_oof bits dbg a b : chk_sub bits dbg a b <> OutOfFuel.
+Proof. unfold chk_sub. destruct (b <=? a); [discriminate|]. destruct dbg; discriminate. Qed.
+Lemma chk_add_not_oof bits dbg a b : chk_add bits dbg a b <> OutOfFuel.
+Proof. unfold chk_add. destruct (a + b <? 2 ^ bits); [discriminate|]. destruct dbg; discriminate. Qed.
+Lemma chk_s_not_oof bits dbg z : chk_s bits dbg z <> OutOfFuel.
+Proof. unfold chk_s. destruct (in_signed bits z); [discriminate|]. destruct dbg; discriminate. Qed.
+
+Lemma next_offset_not_oof dbg r : next_offset dbg r <> OutOfFuel.
+Proof. apply chk_sub_not_oof. Qed.
+
+Lemma read_entry_not_oof dbg e tbl r : read_entry dbg e tbl r <> OutOfFuel.
+Proof.
+  unfold read_entry. pose proof (next_offset_not_oof dbg r).
+  destruct (next_offset dbg r) as [off| | |]; cbn [bind]; try congruence; try discriminate.
+  unfold read_abbreviation. pose proof (read_uleb128_res dbg (r_in r)) as [_ U].
+  destruct (read_uleb128 dbg (r_in r)) as [[code rest]| | |]; cbn [bind]; try congruence; try discriminate.
+  destruct (code =? 0).
+  - pose proof (chk_s_not_oof 64 dbg (r_depth r - 1)).
+    destruct (chk_s 64 dbg (r_depth r - 1)); cbn [bind]; try congruence; discriminate.
+  - destruct (tbl_get tbl code) as [a|]; cbn [bind]; [|discriminate].
+    assert (Hd : (if ab_children a then chk_s 64 dbg (r_depth r + 1) else Ok (r_depth r)) <> OutOfFuel).
+    { destruct (ab_children a); [apply chk_s_not_oof|discriminate]. }
+    destruct (if ab_children a then chk_s 64 dbg (r_depth r + 1) else Ok (r_depth r)); cbn [bind]; try congruence;
+      try discriminate.
+    unfold read_attrs. cbn [r_in]. pose proof (read_attributes_res (ab_specs a) dbg e rest) as [_ A].
+    destruct (read_attributes dbg e (ab_specs a) rest) as [[vs rest']| | |]; cbn [bind]; try congruence; discriminate.
+Qed.
+
+Lemma next_entry_not_oof dbg e tbl c : next_entry dbg e tbl c <> OutOfFuel.
+Proof.
+  unfold next_entry. destruct (raw_is_empty (c_raw c)); [discriminate|].
+  pose proof (read_entry_not_oof dbg e tbl (c_raw c)).
+  destruct (read_entry dbg e tbl (c_raw c)) as [[[ok d] r']| | |]; try congruence; try discriminate.
+  pose proof (next_offset_not_oof dbg (c_raw c)).
+  destruct (next_offset dbg (c_raw c)); cbn [bind]; try congruence; discriminate.
+Qed.
+
+Lemma sibling_loop_fuel dbg e tbl T : forall f c, (length (r_in (c_raw c)) < f)%nat ->
+  sibling_loop f dbg e tbl T c <> OutOfFuel.
+Proof.
+  induction f as [|f IH]; intros c Hf; [lia|]. rewrite sibling_loop_S.
+  assert (Hj : forall r1, (match current c with Some cur => sibling_jump dbg (c_raw c) cur | None => Ok (c_raw c) end) = Ok r1 ->
+               (length (r_in r1) <= length (r_in (c_raw c)))%nat).
+  { intros r1. destruct (current c); [intros H; apply sibling_jump_shrinks in H; tauto|].
+    intros H. inversion H; subst. lia. }
+  destruct (match current c with Some cur => sibling_jump dbg (c_raw c) cur | None => Ok (c_raw c) end)
+    as [r1| | |] eqn:Ej; cbn [bind]; try discriminate.
+  - specialize (Hj r1 eq_refl). unfold sib_half.
+    destruct (next_entry dbg e tbl (mkCur r1 (c_cur c))) as [[[|] c'|x c']| | |] eqn:En; cbn [bind]; try discriminate.
+    + destruct (d_depth (c_cur c') =? T)%Z; [discriminate|]. apply IH.
+      apply next_entry_shrinks in En. cbn [c_raw] in En. lia.
+    + exfalso. exact (next_entry_not_oof _ _ _ _ En).
+  - exfalso. destruct (current c) as [cur|]; [|discriminate]. unfold sibling_jump in Ej.
+    destruct (d_children cur); [|discriminate]. destruct (die_sibling cur); [|discriminate].
+    unfold seek_forward in Ej. destruct (next_offset dbg (c_raw c)) as [no| | |] eqn:No; cbn [bind] in Ej; try discriminate.
+    + destruct (n <? no); cbn [bind] in Ej; [discriminate|].
+      pose proof (skip_n_res (n - no) (r_in (c_raw c))) as [_ S2].
+      destruct (skip_n (n - no) (r_in (c_raw c))); cbn [bind] in Ej; try discriminate. congruence.
+    + unfold next_offset, chk_sub in No. destruct (_ <=? _); [discriminate|]. destruct dbg; discriminate.
+Qed.
+
+Lemma sibling_loop_mono dbg e tbl T : forall f c r,
+  sibling_loop f dbg e tbl T c = r -> r <> OutOfFuel -> forall f', (f <= f')%nat -> sibling_loop f' dbg e tbl T c = r.
+Proof.
+  induction f as [|f IH]; intros c r Hr Hoof f' Hle; [cbn in Hr; congruence|].
+  destruct f' as [|f']; [lia|]. rewrite sibling_loop_S in *.
+  destruct (match current c with Some cur => sibling_jump dbg (c_raw c) cur | None => Ok (c_raw c) end)
+    as [r1| | |]; cbn [bind] in *; try exact Hr.
+  unfold sib_half in *.
+  destruct (next_entry dbg e tbl (mkCur r1 (c_cur c))) as [[[|] c'|x c']| | |]; cbn [bind] in *; try exact Hr.
+  destruct (d_depth (c_cur c') =? T)%Z; [exact Hr|]. apply (IH c' r Hr Hoof). lia.
+Qed.
+
+(* an answer obtained with some fuel is the answer with the fuel the model uses *)
+Lemma sibling_loop_ans dbg e tbl T c f' A :
+  ans (sibling_loop f' dbg e tbl T c) = A -> A <> AOOF ->
+  ans (sibling_loop (cursor_fuel c) dbg e tbl T c) = A.
+Proof.
+  intros HA Hoof.
+  assert (H1 : sibling_loop f' dbg e tbl T c <> OutOfFuel).
+  { intros E. rewrite E in HA. cbn in HA. congruence. }
+  pose proof (sibling_loop_fuel dbg e tbl T (cursor_fuel c) c ltac:(unfold cursor_fuel; lia)) as H2.
+  rewrite <- HA.
+  rewrite <- (sibling_loop_mono dbg e tbl T f' c _ eq_refl H1 (Nat.max f' (cursor_fuel c)) ltac:(lia)).
+  rewrite <- (sibling_loop_mono dbg e tbl T (cursor_fuel c) c _ eq_refl H2 (Nat.max f' (cursor_fuel c)) ltac:(lia)).
+  reflexivity.
+Qed.
+
+(* ------------------------------------------------------------------ *)
+(** * Theorem 5: iterating next_sibling reports exactly the following siblings *)
+
+Lemma at_chain_intro dbg e tbl l off d rest E :
+  Forall (ev_ok dbg e tbl) l -> chain off d l -> E = off + nlen (xbytes l ++ rest) -> E < two64 ->
+  depth_ok d (xbytes l ++ rest) ->
+  at_chain dbg e tbl E rest (mkRaw (xbytes l ++ rest) E d) l.
+Proof.
+  intros Hok Hch HE HE64 Hd. split; cbn [r_in r_end r_depth]; try reflexivity; try assumption.
+  - replace (E - nlen (xbytes l ++ rest)) with off by lia. exact Hch.
+  - lia.
+Qed.
+
+(* what ends a sibling list: the end of the input, or a null entry *)
+Definition list_end (d : Z) (m : list xev) (rest : list byte) : Prop :=
+  (m = [] /\ rest = []) \/ (exists o, m = [null_ev o d]).
+
+Lemma roots_cons codes off d t ts :
+  roots codes off d (t :: ts) = root_die codes off d t :: roots codes (off + tree_size codes t) d ts.
+Proof. reflexivity. Qed.
+
+Lemma siblings_iter dbg e tbl codes E rest d m : list_end d m rest ->
+  forall ts t off c1 fuel,
+  c_cur c1 = root_die codes off d t ->
+  at_chain dbg e tbl E rest (c_raw c1)
+           (tail_evs codes (be e) d off t ++ evs_list codes (be e) d (off + tree_size codes t) ts ++ m) ->
+  r_depth (c_raw c1) = post_depth d t ->
+  E = kids_off codes off t +
+      nlen (xbytes (tail_evs codes (be e) d off t ++ evs_list codes (be e) d (off + tree_size codes t) ts ++ m) ++ rest) ->
+  Forall (placed_ok e tbl codes) (on_list (placed codes) (tree_size codes) off (t :: ts)) ->
+  (length ts < fuel)%nat ->
+  siblings_all fuel dbg e tbl c1 = Ok (roots codes (off + tree_size codes t) d ts, None).
+Proof.
+  intros Hend. induction ts as [|t' ts IH]; intros t off c1 fuel Hcur Hat Hdep HE Hp Hf;
+    (destruct fuel as [|fuel]; [lia|]); cbn [siblings_all];
+    rewrite on_list_cons in Hp; apply Forall_app in Hp; destruct Hp as [Hpt Hpts].
+  - (* last sibling *)
+    assert (Hn : node_ok codes e t).
+    { rewrite placed_unfold in Hpt. inversion Hpt as [|? ? (_ & Hn & _) _]. exact Hn. }
+    unfold next_sibling. unfold current. rewrite Hcur, (root_die_not_null codes e off d t Hn).
+    cbn [root_die d_depth]. fold (root_die codes off d t).
+    cbn [evs_list on_list app] in Hat, HE.
+    pose proof (at_chain_drop _ _ _ _ _ _ _ _ Hat) as Hat2. rewrite Hdep, tail_end_depth in Hat2.
+    assert (Hans : ans (sib_half 0 dbg e tbl d (mkCur (mkRaw (xbytes m ++ rest) E d) null_die)) = ANone).
+    { unfold sib_half. destruct Hend as [[-> ->]|(o & ->)].
+      - rewrite next_entry_end by reflexivity. reflexivity.
+      - rewrite (next_entry_chain dbg e tbl E rest (mkCur _ null_die) _ _ Hat2).
+        cbn [bind c_cur null_ev x_die null_at d_depth]. rewrite Z.eqb_refl. reflexivity. }
+    destruct (skip_tree dbg e tbl codes E rest d t d off m c1 ltac:(lia) Hcur Hat Hdep HE Hpt 0%nat _ null_die eq_refl)
+      as (f' & Hf'); [rewrite Hans; discriminate|].
+    rewrite Hans in Hf'. apply sibling_loop_ans in Hf'; [|discriminate].
+    destruct (sibling_loop (cursor_fuel c1) dbg e tbl d c1) as [[[dd|] cc|x cc]| | |]; cbn [ans] in Hf'; try discriminate.
+    reflexivity.
+  - (* a following sibling t' *)
+    assert (Hn : node_ok codes e t).
+    { rewrite placed_unfold in Hpt. inversion Hpt as [|? ? (_ & Hn & _) _]. exact Hn. }
+    assert (Hn' : node_ok codes e t').
+    { rewrite on_list_cons in Hpts. apply Forall_app in Hpts. destruct Hpts as [Hpt' _].
+      rewrite placed_unfold in Hpt'. inversion Hpt' as [|? ? (_ & Hn' & _) _]. exact Hn'. }
+    unfold next_sibling. unfold current. rewrite Hcur, (root_die_not_null codes e off d t Hn).
+    cbn [root_die d_depth]. fold (root_die codes off d t).
+    set (o' := off + tree_size codes t) in *.
+    unfold evs_list in Hat, HE. rewrite on_list_cons in Hat, HE.
+    fold (evs_list codes (be e) d (o' + tree_size codes t') ts) in Hat, HE.
+    rewrite evs_tail in Hat, HE. rewrite <- !app_assoc in Hat, HE. cbn [app] in Hat, HE.
+    set (l3 := tail_evs codes (be e) d o' t' ++ evs_list codes (be e) d (o' + tree_size codes t') ts ++ m) in *.
+    pose proof (at_chain_drop _ _ _ _ _ _ _ _ Hat) as Hat2. rewrite Hdep, tail_end_depth in Hat2.
+    destruct (at_chain_step _ _ _ _ _ _ _ _ Hat2) as (_ & Hat3 & _). cbn [head_ev x_post] in Hat3.
+    set (c2 := mkCur (mkRaw (xbytes l3 ++ rest) E (post_depth d t')) (root_die codes o' d t')).
+    assert (Hans : ans (sib_half 0 dbg e tbl d (mkCur (mkRaw (xbytes (head_ev codes (be e) d o' t' :: l3) ++ rest) E d) null_die))
+                   = ASome (root_die codes o' d t') c2).
+    { unfold sib_half. rewrite (next_entry_chain dbg e tbl E rest (mkCur _ null_die) _ _ Hat2).
+      cbn [bind c_cur head_ev x_die x_post root_die d_depth]. rewrite Z.eqb_refl.
+      fold (root_die codes o' d t'). fold c2. unfold current. cbn [c_cur c2].
+      rewrite (root_die_not_null codes e o' d t' Hn'). reflexivity. }
+    destruct (skip_tree dbg e tbl codes E rest d t d off _ c1 ltac:(lia) Hcur Hat Hdep HE Hpt 0%nat _ null_die eq_refl)
+      as (f' & Hf'); [rewrite Hans; discriminate|].
+    rewrite Hans in Hf'. apply sibling_loop_ans in Hf'; [|discriminate].
+    destruct (sibling_loop (cursor_fuel c1) dbg e tbl d c1) as [[[dd|] cc|x cc]| | |]; cbn [ans] in Hf'; try discriminate.
+    inversion Hf'; subst dd cc. cbn [bind].
+    assert (HE3 : E = kids_off codes o' t' + nlen (xbytes l3 ++ rest)).
+    { pose proof (tail_bytes_len codes (be e) d off t) as Ht.
+      rewrite xbytes_app, <- app_assoc, nlen_app, xbytes_cons in HE. cbn [head_ev x_bytes] in HE.
+      rewrite <- app_assoc, nlen_app, head_bytes_len in HE. pose proof (kids_off_ge codes o' t'). unfold o' in *. lia. }
+    rewrite (IH t' o' c2 fuel eq_refl Hat3 eq_refl HE3 Hpts ltac:(cbn in Hf; lia)).
+    rewrite roots_cons. reflexivity.
+Qed.
